@@ -23,7 +23,9 @@ fi
 BIN="$VERIF_DIR/.build/check.$$"
 cleanup() { rm -f "$BIN" "$BIN-race" "$VERIF_DIR/.build/alt.$$.mod" "$VERIF_DIR/.build/alt.$$.sum"; }
 trap cleanup EXIT INT TERM
-if ! go build $MODFLAG -tags verif -o "$BIN" ./cmd/check 2> "$VERIF_DIR/.build/build.$$.log"; then
+# the plain build is pure Go (no libc): the traced ufs server of C15 then makes no file
+# system calls of its own besides the Go runtime's start-up reads
+if ! CGO_ENABLED=0 go build $MODFLAG -tags verif -o "$BIN" ./cmd/check 2> "$VERIF_DIR/.build/build.$$.log"; then
     echo "BUILD FAILED (property $PROP): the harness does not compile against $REPO" >&2
     cat "$VERIF_DIR/.build/build.$$.log" >&2; rm -f "$VERIF_DIR/.build/build.$$.log"
     exit 3
